@@ -50,8 +50,13 @@ func WaitAvailableKeys(keys *Keys, cfg *inputrc.Config) error {
 	// Keys typed before the shell waited for some for the first time have been read
 	// along with the terminal's answers to its queries, when the configuration was
 	// not known yet: they must be prepared like those read from now on.
+	// (The beginning of a character they may end with was set aside when they
+	// were read, and comes after them: it stays where it is meanwhile.)
 	if first && len(keys.buf) > 0 {
+		partial := keys.partial
+		keys.partial = nil
 		keys.buf = keys.convertInput(keys.buf)
+		keys.partial = partial
 	}
 
 	// The macro engine might have fed some keys
